@@ -354,6 +354,11 @@ func (r *runner) checkPlaced(ui int, limBefore int, o *DObs) {
 	if u.Pub == nil || u.Resolved {
 		return
 	}
+	for j := ui + 1; j < len(r.c.Updates); j++ {
+		if r.c.Updates[j].Pub != nil && r.c.Updates[j].LS == u.LS {
+			return // superseded by a later version of the same label set (which may be resolved, notified and deleted)
+		}
+	}
 	for _, k := range r.c.Routes[u.LS] {
 		found := false
 		for _, g := range o.View {
@@ -472,7 +477,7 @@ func (r *runner) do(a Act) bool {
 		n := len(r.c.Steps)
 		r.scan()
 		if len(r.c.Steps) == n { // nothing parked: a model no-op carries the observation
-			r.emit(DStep{Kind: "Mgo"})
+			r.emit(DStep{Kind: "Nop"})
 			r.scan()
 		}
 		r.tags["tick"]++
@@ -610,6 +615,8 @@ func CoqCase(c *DCase) string {
 			x = vh.App("XMvisit", coqKey(s.Key))
 		case "Mgo":
 			x = "XMgo"
+		case "Nop":
+			x = "XNop"
 		case "Fsnap":
 			x = vh.App("XFsnap", coqKey(s.Key), vh.Z(s.Now))
 		case "Fdone":
